@@ -7,6 +7,9 @@ CONSTANTS
   Shapes = {"comp", "longTail", "longHead", "short", "sliced"}
   MaxShape = 2
   ShapeWithCorr = TRUE
+  MaxOps = 0
+  OpKinds = {}
+  Origins = {"loaded"}
   TweakChoice = {"plain", "tweaked"}
 INVARIANT Agree
 INVARIANT AgreeJudge
